@@ -97,10 +97,35 @@ def region_text(cache, uri, sl, sc, el, ec):
         return None
 
 
-def findings_of_run(p, r):
-    """-> (ok, {owner: sorted list of normalised findings}); owner = ("parse",) | (kind, name)."""
-    ev = r["events"]
-    doc = r.get("sarif_doc")
+DERIVED_NOTES = ("For more details, see ", "To ignore this type of result, use `--allow ")
+NOTE_LINE = re.compile(r"^\s*= (.*)$")
+
+
+def parse_blocks(text, pdir):
+    """The diagnostics of one run of the binary AS DISPLAYED: per diagnostic (in the order of e2e.parse_stdout's "diag"
+    events) its complete text - header, every `file:line:col`, every underlined source line with its label text, every
+    note - with the project directory replaced, and the list of its notes.  -> [(text, [note, ..])]"""
+    blocks, cur = [], None
+    for line in text.split("\n"):
+        if e2e.LOG.match(line):
+            cur = None
+            continue
+        if e2e.HEADER.match(line):
+            cur = [[line], []]
+            blocks.append(cur)
+            continue
+        if cur is None:
+            continue
+        cur[0].append(line)
+        m = NOTE_LINE.match(line)
+        if m:
+            cur[1].append(m.group(1))
+        elif cur[1] and line.strip():
+            cur[1][-1] += "\n" + line.strip()       # continuation of a note
+    return [("\n".join(ls).rstrip().replace(pdir, "<dir>"), notes) for ls, notes in blocks]
+
+
+def owners_of(ev):
     diags, owner = [], ("parse",)
     for e in ev:
         if e[0] == "log":
@@ -109,22 +134,66 @@ def findings_of_run(p, r):
                 owner = (m.group(1), m.group(2))
         else:
             diags.append((owner, e))
-    if r["exit"] not in (0, 1) or doc is None or doc.get("bad") or len(doc["results"]) != len(diags):
+    return diags
+
+
+def findings_of_run(p, r):
+    """-> (ok, {owner: sorted list of normalised findings}); owner = ("parse",) | (kind, name).  A finding = (id, level,
+    message, primary labels, secondary labels, notes); a label = (file name, labelled source TEXT, label message), the labels
+    of a finding in source order (file, line, column) - their relative structure - without the positions themselves: this
+    is the form compared in the REORDERING clauses of the property (definitions / files permuted, added, removed), where
+    line numbers may change.  The run-twice clause compares displayed_of_run."""
+    doc = r.get("sarif_doc")
+    diags = owners_of(r["events"])
+    blocks = r.get("blocks")
+    if r["exit"] not in (0, 1) or doc is None or doc.get("bad") or len(doc["results"]) != len(diags) \
+            or (blocks is not None and len(blocks) != len(diags)):
         return False, {}
     cache = {}
     out = {}
-    for (own, d), res in zip(diags, doc["results"]):
+    for i, ((own, d), res) in enumerate(zip(diags, doc["results"])):
         level, rid, msg, locs, rel = res["tuple"]
 
         def lab(l):
             uri, sl, sc, el, ec, lmsg = l
             return (os.path.basename(uri or ""), GEN_NAME.sub(r"\1_#_#", region_text(cache, uri, sl, sc, el, ec) or "?"),
                     norm_msg(lmsg, p.dir))
-        out.setdefault(own, []).append((rid, level, norm_msg(msg, p.dir), tuple(sorted(lab(l) for l in locs)),
-                                        tuple(sorted(lab(l) for l in rel))))
+
+        def in_source_order(ls):
+            return tuple(lab(l) for l in sorted(ls, key=lambda l: (os.path.basename(l[0] or ""), l[1] or 0, l[2] or 0, l[3] or 0, l[4] or 0)))
+        notes = tuple(norm_msg(n, p.dir) for n in (blocks[i][1] if blocks is not None else []) if not n.startswith(DERIVED_NOTES))
+        out.setdefault(own, []).append((rid, level, norm_msg(msg, p.dir), in_source_order(locs), in_source_order(rel), notes))
     for k in out:
         out[k].sort()
     return True, out
+
+
+def displayed_of_run(r):
+    """{owner: sorted list of the complete displayed diagnostics} - what two runs on the SAME files and options must agree on
+    (the run-twice clause: nothing is normalised but the project directory; the order of the diagnostics inside one
+    definition's segment and the order of the segments are free: a multiset)"""
+    diags = owners_of(r["events"])
+    blocks = r.get("blocks") or []
+    if len(blocks) != len(diags):
+        return None
+    out = {}
+    for (own, _), (text, _) in zip(diags, blocks):
+        out.setdefault(own, []).append(text)
+    for k in out:
+        out[k].sort()
+    return out
+
+
+def displayed_difference(a, b):
+    """-> None | (owner, a diagnostic only in a, a diagnostic only in b)"""
+    if a is None or b is None:
+        return (("?",), "diagnostics could not be cut out of stdout", "")
+    for o in sorted(set(a) | set(b)):
+        if a.get(o, []) != b.get(o, []):
+            xa = next((x for x in a.get(o, []) if x not in b.get(o, [])), "")
+            xb = next((x for x in b.get(o, []) if x not in a.get(o, [])), "")
+            return (o, xa, xb)
+    return None
 
 
 def findings_of_outcome(p, outcome):
@@ -204,6 +273,26 @@ def enrich(rng, st, feats_seen):
                 if fnames and rng.random() < 0.3:
                     text = insert_before_last(text, "out <== in;", "var fc%d = %s(n, %d);" % (j, rng.choice(fnames), rng.randint(1, 9)))
                     feats_seen["call_from_template"] = feats_seen.get("call_from_template", 0) + 1
+                if rng.random() < 0.3:
+                    # `<--` targets (non-quadratic right-hand side: CS0005) that occur, with the same access, in 4..10 constraints:
+                    # the report labels every one of them, out of a HashSet
+                    parts = []
+                    for t in range(rng.choice([1, 2, 2, 3])):
+                        sig = rng.choice(["h%d_%d" % (j, t), "h%d_%d[0]" % (j, t)])
+                        decl = "signal h%d_%d%s;" % (j, t, "[2]" if "[" in sig else "")
+                        parts.append("%s %s <-- in != 0 ? 1 / in : %d;" % (decl, sig, t))
+                        for c in range(rng.randint(4, 10)):
+                            parts.append(rng.choice(["in * %s === %d;", "%s * (in - %d) === in;", "%s * %s === in + %d;"]).replace("%s", sig)
+                                         % (c + 1))
+                    text = insert_before_last(text, "out <== in;", "\n    ".join(parts))
+                    feats_seen["many_constraints"] = feats_seen.get("many_constraints", 0) + 1
+                if rng.random() < 0.15:
+                    # an input of LessThan that several Num2Bits of too many bits constrain: CS0014 with one secondary label each
+                    nn = rng.randint(2, 4)
+                    line = "component lq%d = LessThan(8); lq%d.in[0] <== in; lq%d.in[1] <== 7;" % (j, j, j)
+                    line += " " + " ".join("component nq%d_%d = Num2Bits(%d); nq%d_%d.in <== in;" % (j, t, 254 + t, j, t) for t in range(nn))
+                    text = insert_before_last(text, "out <== in;", line)
+                    feats_seen["less_than_many_num2bits"] = feats_seen.get("less_than_many_num2bits", 0) + 1
                 others = [t for t in tnames if t != name]
                 if others and rng.random() < 0.3:
                     o = rng.choice(others)
@@ -532,6 +621,7 @@ def execute_runs(cli, projects, runs):
         args = e2e.cli_args(r["level"], r["allow"], r["verbose"], sarif_path, p.abs_libs(), p.meta.get("curve"))
         rc, out, err = e2e.run_cli(cli, p.abs_argv(), args, cwd=p.dir)
         r["exit"], r["events"], r["stderr"], r["sarif_path"] = rc, e2e.parse_stdout(out), err[-400:], sarif_path
+        r["blocks"] = parse_blocks(out, p.dir)
         if sarif_path:
             r["sarif_doc"] = e2e.parse_sarif(sarif_path)
             try:
@@ -567,10 +657,14 @@ def harness_lines(mode, projects, extra):
 
 
 def norm_report(p, r):
+    """the same shape as a finding of findings_of_run, from a report of the harness"""
     def lab(l):
         return (os.path.basename(l.get("path") or ""), GEN_NAME.sub(r"\1_#_#", l.get("text") or "?"), norm_msg(l.get("msg"), p.dir))
-    return (r["id"], r["level"], norm_msg(r["message"], p.dir), tuple(sorted(lab(l) for l in r["primary"])),
-            tuple(sorted(lab(l) for l in r["secondary"])))
+
+    def in_source_order(ls):
+        return tuple(lab(l) for l in sorted(ls, key=lambda l: (os.path.basename(l.get("path") or ""), l.get("start") or 0, l.get("end") or 0)))
+    return (r["id"], r["level"], norm_msg(r["message"], p.dir), in_source_order(r["primary"]), in_source_order(r["secondary"]),
+            tuple(norm_msg(n, p.dir) for n in r.get("notes") or []))
 
 
 def lookups_of(run, p):
@@ -731,6 +825,19 @@ def compare_self_test():
     return out
 
 
+def only_in(a, b, n=2):
+    """the findings of list a that list b lacks (multiset), spelled out with their labelled texts and notes"""
+    rest = list(b)
+    out = []
+    for x in a:
+        if x in rest:
+            rest.remove(x)
+        else:
+            out.append({"id": x[0], "message": x[2][:80], "primary": [l[1][:60] for l in x[3]] if len(x) > 3 else [],
+                        "secondary": [l[1][:60] for l in x[4]] if len(x) > 4 else [], "notes": list(x[5]) if len(x) > 5 else []})
+    return out[:n]
+
+
 def analysis_order_of(events):
     out = []
     for e in events:
@@ -787,9 +894,24 @@ def model_tie(projects, runs, idxs):
     dis, fail, n = [], [], 0
     for curve, ii in sorted(by_curve.items()):
         truths = [e2e.Truth(t) for t in e2e.ground_truth([projects[i] for i in ii], curve)]
+        # the ORDER of the labels inside a report (and inside a SARIF result) is a hash order for some reports (CS0005: a
+        # HashSet of constraints) and is not displayed (codespan renders by position): labels are compared as sets here
+        lkey = lambda l: (str(l.get("path")), l.get("sl") or 0, l.get("sc") or 0, l.get("el") or 0, l.get("ec") or 0, str(l.get("msg")))
+        for t in truths:
+            for rep, _ in t.payload:
+                for side in ("primary", "secondary"):
+                    if isinstance(rep.get(side), list):
+                        rep[side].sort(key=lkey)
+        tkey = lambda l: tuple((x is None, x if x is not None else 0) if not isinstance(x, str) else (False, x) for x in l)
         rr = []
         for j, i in enumerate(ii):
             r = dict(runs[i])
+            doc = r.get("sarif_doc")
+            if doc and not doc.get("bad"):
+                doc = dict(doc)
+                doc["results"] = [dict(x, tuple=x["tuple"][:3] + (tuple(sorted(x["tuple"][3], key=tkey)), tuple(sorted(x["tuple"][4], key=tkey))))
+                                  for x in doc["results"]]
+                r["sarif_doc"] = doc
             r["p"] = j
             # e2e reads the announcement of a definition with its own strict pattern: hand it the canonical wording
             r["events"] = [("log", "analyzing %s '%s'" % OWNER_LINE.match(e[1]).groups()) if e[0] == "log" and OWNER_LINE.match(e[1]) else e
@@ -995,9 +1117,9 @@ def run(ctx, proofs):
                          "of the name maps)" % both[:200]) if both else "the first under the order [%s], the second under [%s]" % (oa[:200], ob[:200])
                 failing.append({"project": projects[i].describe(), "kind": "analysis-orders",
                                 "what": "AnalysisRunner::analyze_functions / analyze_templates give %d different finding multisets over "
-                                        "%d analysis orders (%d hash states): findings of %s are %s or %s; %s"
-                                        % (len(a["outcomes"]), len(a["orders"]), a["reps"], " ".join(o2), [x[:3] for x in fa.get(o2, [])][:3],
-                                           [x[:3] for x in fb.get(o2, [])][:3], where)})
+                                        "%d analysis orders (%d hash states): findings of %s - only in one outcome %s, only in another %s; %s"
+                                        % (len(a["outcomes"]), len(a["orders"]), a["reps"], " ".join(o2), only_in(fa.get(o2, []), fb.get(o2, [])),
+                                           only_in(fb.get(o2, []), fa.get(o2, [])), where)})
         # ---- (1b) the ANSWERS to the lookups under every order of take / passes / replace (harness deps)
         perm_orders, perm_projects = 0, 0
         for i, perms in perm_cases.items():
@@ -1061,7 +1183,7 @@ def run(ctx, proofs):
                                 "what": "%d repetitions of the pipeline in one process (fresh hasher keys each) gave %d different "
                                         "finding multisets (%s); findings of %s: %s vs %s"
                                         % (o.get("reps", 0), len(outs), [x["count"] for x in outs], " ".join(o2),
-                                           [x[:3] for x in a.get(o2, [])][:3], [x[:3] for x in b.get(o2, [])][:3])})
+                                           only_in(a.get(o2, []), b.get(o2, [])), only_in(b.get(o2, []), a.get(o2, [])))})
                 return None
             okp, f = findings_of_outcome(projects[j], outs[0]["outcome"])
             if not okp:
@@ -1080,6 +1202,8 @@ def run(ctx, proofs):
         refs_memo = {}
         shapes_seen = 0
         ids_seen = set()
+        displayed_compared = 0
+        max_secondary = {}           # report id -> largest number of secondary labels seen on one finding
         not_analysed = 0             # definitions of a project that the runner did not analyse (included only / dropped): no check (3)
         for k, idxs in groups.items():
             if isinstance(k, tuple):
@@ -1093,6 +1217,10 @@ def run(ctx, proofs):
             if any(ref.values()):
                 nontrivial += 1
             ids_seen.update(x[0] for v in ref.values() for x in v)
+            for v in ref.values():
+                for x in v:
+                    if len(x[4]) > max_secondary.get(x[0], 0):
+                        max_secondary[x[0]] = len(x[4])
             A = texts[ref_i]
             is_corpus = isinstance(k, str)
             infl_a, lk_a = influencers(ref_i) if not is_corpus else ({}, {})
@@ -1124,6 +1252,17 @@ def run(ctx, proofs):
                 if not okv:
                     failing.append({"project": projects[i].describe(), "what": "run failed or SARIF does not match stdout (exit %s)" % runs[i]["exit"], "kind": kind})
                     continue
+                if i != ref_i and rep_of[i] == rep_of[ref_i]:
+                    # the run-twice clause: the same files and options -> the same DISPLAYED diagnostics, labels with their
+                    # positions and underlined lines and notes included (nothing normalised but the directory)
+                    displayed_compared += 1
+                    dd = displayed_difference(displayed_of_run(runs[ref_i]), displayed_of_run(runs[i]))
+                    if dd:
+                        failing.append({"project": projects[ref_i].describe(), "kind": "same-displayed",
+                                        "what": "two runs of the binary on the same files and options display different diagnostics for %s "
+                                                "(the findings agree up to labels / notes / positions or not at all):\n--- first run\n%s\n"
+                                                "--- second run\n%s" % (" ".join(dd[0]), dd[1][:1500], dd[2][:1500])})
+                        continue
                 B = texts[i]
                 infl_b, lk_b = influencers(i) if not is_corpus else ({}, {})
                 ign = changed_files(projects[ref_i], projects[i])
@@ -1248,6 +1387,13 @@ def run(ctx, proofs):
                                        "%s for its reduced project" % (dn, duplicated_names(projects[ri]))})
                 continue
             first = res[0][1]
+            dd = next((d for d in (displayed_difference(displayed_of_run(runs[ii[0]]), displayed_of_run(runs[i])) for i in ii[1:]) if d), None)
+            displayed_compared += len(ii) - 1
+            if dd:
+                failing.append({"project": projects[ii[0]].describe(), "kind": "same-displayed",
+                                "what": "two runs of the binary on the same files (in which %s is defined more than once) display different "
+                                        "diagnostics for %s:\n--- first run\n%s\n--- second run\n%s" % (dn, " ".join(dd[0]), dd[1][:1500], dd[2][:1500])})
+                continue
             other = next((i for i, (_, f) in zip(ii, res) if f != first), None)
             fin = inproc_of(rep_of[ii[0]])
             inproc_runs += orders[rep_of[ii[0]]].get("reps", 0)
@@ -1345,7 +1491,7 @@ def run(ctx, proofs):
             if ao_projects - ao_incomplete < 10:
                 degenerate.append("only %d small projects saw EVERY analysis order through the real analyze_templates (%d tried, %d "
                                   "incomplete)" % (ao_projects - ao_incomplete, ao_projects, ao_incomplete))
-            for feat in ("intermediate", "call_from_template", "call_from_function", "component_array", "more_than_64_templates",
+            for feat in ("intermediate", "many_constraints", "less_than_many_num2bits", "call_from_template", "call_from_function", "component_array", "more_than_64_templates",
                          "non_default_curve", "library_directory"):
                 if feats_seen.get(feat, 0) < (1 if feat == "more_than_64_templates" else 3):
                     degenerate.append("feature `%s` generated %d times only" % (feat, feats_seen.get(feat, 0)))
@@ -1353,6 +1499,13 @@ def run(ctx, proofs):
             for kind in ("file-added", "file-removed", "files-permuted", "definitions-permuted", "definitions-added", "definitions-removed"):
                 if kind not in kinds_now:
                     degenerate.append("no variant of kind `%s` was generated" % kind)
+            if max_secondary.get("CS0005", 0) < 6 or feats_seen.get("many_constraints", 0) < 10:
+                degenerate.append("no CS0005 finding with 6 or more `constrained here` labels was displayed (largest: %d; %d templates "
+                                  "generated with a `<--` signal in 4..10 constraints)" % (max_secondary.get("CS0005", 0), feats_seen.get("many_constraints", 0)))
+            if max_secondary.get("CS0014", 0) < 2:
+                degenerate.append("no CS0014 finding with 2 or more secondary labels was displayed")
+            if displayed_compared < len(structures):
+                degenerate.append("only %d pairs of runs on the same files were compared as displayed" % displayed_compared)
             if "CS0017" not in ids_seen:
                 degenerate.append("no under-constrained intermediate signal (CS0017) was ever reported")
             if dup_stats["first_definition_kept"] < 8:
@@ -1397,6 +1550,15 @@ def run(ctx, proofs):
                    "here: RunnerLib's tie is the oracle of field duplicated_names (first definition kept), Desugar's is C18's",
             "projects": len(structures), "projects_displaying_findings": nontrivial, "comparisons": compared,
             "generated_features": feats_seen,
+            "largest_number_of_secondary_labels_per_report_id": max_secondary,
+            "pairs_of_runs_on_the_same_files_compared_as_displayed": displayed_compared,
+            "compared_observables": {
+                "run-twice clause (same files, same options)": "the complete displayed diagnostic per definition segment, as a multiset: "
+                    "header, every file:line:col, every underlined source line with its label text, every note; only the project "
+                    "directory is replaced (binary); in process the reports with label byte ranges, label texts and notes",
+                "reordering clauses (definitions / files permuted, added, removed, references changed)": "id, severity, message, "
+                    "primary and secondary labels as (file name, labelled source text, label message) in source order, notes; "
+                    "positions, the project directory and generated names normalised"},
             "runs_per_variant_kind": kinds, "corpus_witnesses": [c["_file"] for c in corpus],
             "fresh_process_runs": len(runs), "in_process_pipeline_runs": inproc_runs,
             "in_process_projects_with_more_than_one_outcome": inproc_multi,
@@ -1515,6 +1677,15 @@ def replay(ctx, rep):
             print("  ", {" ".join(k): [x[:3] for x in v] for k, v in f.items()})
         if len(distinct) > 1 or not all(ok for ok, _ in res):
             bad = 1
+        for i in range(1, 8):
+            dd = displayed_difference(displayed_of_run(runs[0]), displayed_of_run(runs[i]))
+            if dd:
+                print("runs 0 and %d of the same input DISPLAY different diagnostics for %s:\n--- run 0\n%s\n--- run %d\n%s"
+                      % (i, " ".join(dd[0]), dd[1], i, dd[2]))
+                bad = 1
+                break
+        else:
+            print("8 runs of the same input display the same diagnostics (labels, positions, notes included)")
         o = harness_lines("orders", [ps[0]], [{"reps": 32}])[0]
         print("32 repetitions in process (fresh hasher keys each): %d distinct outcomes %s; analysis orders seen: %d"
               % (len(o.get("outcomes", [])), [x["count"] for x in o.get("outcomes", [])], len(set(o.get("analysis_orders", [])))))
